@@ -14,6 +14,10 @@ def gen_name(rng, scaffold=False):
     n = "".join(rng.choice(NAME_ALPHA) for _ in range(rng.randint(1, 10))).strip()
     if not n or n.startswith("#"):
         n = "q" + n
+    if rng.random() < 0.15:
+        n = n + "#" + str(rng.randint(1, 9)) + rng.choice(["", "#chr1"])  # PanSN-style names: '#' inside a name is no comment
+    if not scaffold and rng.random() < 0.1:
+        n = rng.choice([" ", ""]) + n + rng.choice([" ", "  "])  # blanks at the ends of a contig name belong to the name
     return n
 
 
